@@ -59,17 +59,14 @@ def exempt : List (String × String) := [
   ("processorqueue.queueProcessor", "inDrainMode")
 ]
 
-/-- Recorded findings (known_findings.json, F18a/F18b…): unsynchronised shared fields of the unchanged tree. -/
+/-- Recorded OPEN findings (known_findings.json): unsynchronised shared fields of the current tree.
+    F18d, F18f, F18g, F18h were repaired by `fix:` commits and are no longer listed: they must satisfy the
+    discipline now. -/
 def knownRacy : List (String × String × String) := [
   ("F18a", "lunarcontext.lunarContext", "transactionalContext"),
   ("F18b", "streams.Stream", "apiStreams"),
   ("F18c", "routing.HandlingDataManager", "stream"),
-  ("F18d", "quotaresource.fixedWindow", "quotaGroups"),
-  ("F18e", "utils.MemoryCache", "currentCacheSize"),
-  ("F18f", "vacuum.MapVacuum", "entries"),
-  ("F18f", "vacuum.MapVacuum", "active"),
-  ("F18g", "config.TxnPoliciesAccessor", "currentVersion"),
-  ("F18g", "config.TxnPoliciesAccessor", "policiesVersions")
+  ("F18e", "utils.MemoryCache", "currentCacheSize")
 ]
 
 def allowed : List (String × String) := exempt ++ knownRacy.map fun (_, s, f) => (s, f)
